@@ -80,6 +80,10 @@ DECRYPT_DATA = Contract(
              ("was-sealed-under-this-key", "sealed(encrypted, key, result)")],
     note="a return value exists only for a ciphertext that is nonce ++ seal(key, nonce, result)")
 
+PURE_REPLAY = {"driver": "pure_replay:run"}
+for _c in (TO_BYTES, HKDF, DICT_TO_BYTES, BYTES_TO_HEXSTR, DERIVE_KEY, DERIVE_PHASE_KEY, ENCRYPT_DATA, DECRYPT_DATA):
+    _c.replay = PURE_REPLAY
+
 SHARED = [TO_BYTES, HKDF, DICT_TO_BYTES, BYTES_TO_DICT, BYTES_TO_HEXSTR, HEXSTR_TO_BYTES, DERIVE_KEY,
           DERIVE_PHASE_KEY, ENCRYPT_DATA, DECRYPT_DATA]
 
